@@ -7,6 +7,7 @@
  *   mix fam=hxp    fn=<pdf|logpdf|cdf|logcdf|surv|logsurv|invcdf> x=<bits> mu=<bits> q=<list> l=<list>
  *   mix fam=mixgev fn=<...> x=<bits> q=<list> mu=<list> l=<list> al=<list>   -> ok <bits>
  *   mixsample fam=<hxp|mixgev> seed=<n> k=<draws> (same parameters)          -> ok <bits>,...
+ *   vec fn=<DMax|DMin|DLogSum> v=<list>                                       -> ok <bits>   (esl_vec_D*, n = length >= 1)
  */
 #include "hcommon.h"
 #include <signal.h>
@@ -23,6 +24,7 @@
 #include "esl_lognormal.h"
 #include "esl_hyperexp.h"
 #include "esl_mixgev.h"
+#include "esl_vectorops.h"
 
 typedef double (*f3_t)(double, double, double);
 typedef double (*f4_t)(double, double, double, double);
@@ -162,6 +164,16 @@ static void h_op_inner(void)
       h_out("%s", buf); free(buf); esl_randomness_Destroy(R);
     } else h_out("bad-op");
     free_mix();
+    return;
+  }
+  if (!strcmp(op, "vec")) {
+    double v[16], r; int nv = parse_bits_list(h_arg("v"), v, 16);
+    if (!fn || nv < 1) { h_out("bad-op"); return; }
+    if      (!strcmp(fn, "DMax"))    r = esl_vec_DMax(v, nv);
+    else if (!strcmp(fn, "DMin"))    r = esl_vec_DMin(v, nv);
+    else if (!strcmp(fn, "DLogSum")) r = esl_vec_DLogSum(v, nv);
+    else { h_out("bad-op"); return; }
+    h_out("ok %s", h_dbits(r));
     return;
   }
   if (!fn) { h_out("bad-op"); return; }
